@@ -65,10 +65,22 @@ def parse_routes(cell, w, vw):
     return out
 
 
-def dict_record(rng, w, form, items, vw, norders=3, with_hash=False):
-    """items: list of (raw key, spec key json, int key or None, value int)"""
-    rec = {'op': 'dict', 'w': w, 'form': form, 'vw': vw,
+def dict_record(rng, w, form, items, vw, norders=3, with_hash=False, vform='uint'):
+    """items: list of (raw key, spec key json, int key or None, value int); vform: which value helper of HashMap is used
+    (uint / int: the same vw bits, written through with_uint_values / with_int_values; coins: with_coins_values)"""
+    rec = {'op': 'dict', 'w': w, 'form': form, 'vw': vw, 'vform': vform,
            'items': [{'key': kj, 'v': bitstr_of_list([(v >> (vw - 1 - i)) & 1 for i in range(vw)])} for _, kj, v in items]}
+    if vform == 'coins':
+        for it, (_, _, v) in zip(rec['items'], items):
+            it['coins'] = big(v)
+
+    def new_map(**kw):
+        hm = HashMap(w, **kw)
+        return hm.with_uint_values(vw) if vform == 'uint' else hm.with_int_values(vw) if vform == 'int' else hm.with_coins_values()
+
+    def val(v):
+        return v - (1 << vw) if vform == 'int' and v >> (vw - 1) else v
+    items = [(raw, kj, val(v)) for raw, kj, v in items]
     try:
         hashes = []
         cell = None
@@ -77,7 +89,7 @@ def dict_record(rng, w, form, items, vw, norders=3, with_hash=False):
             if o:
                 # shuffles must keep the relative order of equal keys (last wins): items have distinct keys in generated sets
                 rng.shuffle(order)
-            hm = HashMap(w).with_uint_values(vw)
+            hm = new_map()
             for raw, _, v in order:
                 if form == 'hashed':
                     hm.set(raw, v, hash_key=True)
@@ -92,13 +104,13 @@ def dict_record(rng, w, form, items, vw, norders=3, with_hash=False):
         if form == 'int' and len(items) >= 2 and cell is not None:
             # the same map grown in two steps on ONE object: serialise, add the last entry through the public set_int_key,
             # serialise again (also after overwriting an entry with a wrong value and putting the right one back)
-            hm = HashMap(w).with_uint_values(vw)
+            hm = new_map()
             for raw, _, v in items[:-1]:
                 hm.set(raw, v)
             hm.serialize()
             hm.set_int_key(items[-1][0], items[-1][2])
             hashes.append(list(hm.serialize().hash))
-            hm.set_int_key(items[0][0], (items[0][2] + 1) % (1 << vw))
+            hm.set_int_key(items[0][0], items[0][2] ^ 1)
             hm.serialize()
             hm.set_int_key(items[0][0], items[0][2])
             hashes.append(list(hm.serialize().hash))
@@ -111,7 +123,7 @@ def dict_record(rng, w, form, items, vw, norders=3, with_hash=False):
                 del hm.map[spare]
                 hashes.append(list(hm.serialize().hash))
             shared = {raw: v for raw, _, v in items[:-1]}
-            hm2 = HashMap(w, map_=shared).with_uint_values(vw)
+            hm2 = new_map(map_=shared)
             hm2.serialize()
             shared[items[-1][0]] = items[-1][2]
             hashes.append(list(hm2.serialize().hash))
@@ -170,7 +182,7 @@ def generate(tier, seed, ctx):
                 vw = rng.choice([8, 16, 32])
                 items = [(k, big(k), rng.getrandbits(vw)) for k in ks]
                 rng.shuffle(items)
-                out.append(dict_record(rng, w, 'int', items, vw, with_hash=False))
+                out.append(dict_record(rng, w, 'int', items, vw, with_hash=False, vform=rng.choice(['uint', 'int', 'coins'])))
         # key forms
         for w in (8, 16, 64, 256):
             ks = sorted({rng.getrandbits(w) for _ in range(6)} | {0, 1})
